@@ -255,7 +255,14 @@ def case_full(case):
                 out["jac_exprs"] = [None if v is None else numeval.fs(v) for v in (numeval.val(captured[i * n], pt) for i in range(n))] if len(captured) == n * n else "unexpected number of diff calls: %d" % len(captured)
                 out["J"] = [[(lambda f: None if f is None else numeval.fs(f))(numeval.val(J[i, j], pt)) for j in range(n)] for i in range(n)]
                 if cl_rhs is not None:
-                    out["J_true"] = [[(lambda f: None if f is None else numeval.fs(f))(numeval.val(odiff(cl_rhs[x[i]], sympy.Symbol(x[j])), pt)) for j in range(n)] for i in range(n)]
+                    # rows of function-of-time entries have no right-hand side in the input text: None (they are covered by J_stored below and by C05)
+                    out["J_true"] = [[(lambda f: None if f is None else numeval.fs(f))(numeval.val(odiff(cl_rhs[x[i]], sympy.Symbol(x[j])), pt)) if x[i] in cl_rhs else None
+                                      for j in range(n)] for i in range(n)]
+                # the derivative of the COMPLETE stored right-hand side A x + b + c (get_jacobian_matrix differentiates A x + c only: a state
+                # variable left in b would be lost)
+                xv = sympy.Matrix([sympy.Symbol(v) for v in x])
+                full = A * xv + b + c
+                out["J_stored"] = [[(lambda f: None if f is None else numeval.fs(f))(numeval.val(odiff(full[i], xv[j]), pt)) for j in range(n)] for i in range(n)]
                 out["point"] = {str(k): str(v) for k, v in pt.items()}
                 out["_pt"] = pt
         except Exception as e:
@@ -387,6 +394,9 @@ def analytic_flow_check(indict, marker, solvers, seed, hsym="__h"):
         out["skipped"] = "function-of-time variable in the analytic solver (covered by C05)"
         return out
     xs = [sympy.Symbol(v) for v in svars]
+    # a right-hand side may name the time variable: the flow from (x, T0) over h then solves du/dh = f(u, T0 + h); the returned update
+    # expressions are functions of the state and the step size only (nothing advances the time symbol for their consumer)
+    tsym = sympy.Symbol(indict.get("options", {}).get("input_time_symbol", "t"))
     rng = random.Random(seed + 5)
     syms = set()
     for e in upd.values():
@@ -404,10 +414,12 @@ def analytic_flow_check(indict, marker, solvers, seed, hsym="__h"):
         h1 = sympy.Rational(rng.randint(1, 30), 40)
         h2 = sympy.Rational(rng.randint(1, 30), 40)
 
-        def U(hv, state):
+        def U(hv, state, t0=None):
             d = dict(pt)
             d.update(state)
             d[h] = hv
+            if t0 is not None and tsym in d:
+                d[tsym] = t0
             return {v: sympy.N(upd[v].subs(d), 45) for v in svars}
         st0 = {x: pt[x] for x in xs}
         out["checked"] += 1
@@ -423,11 +435,13 @@ def analytic_flow_check(indict, marker, solvers, seed, hsym="__h"):
                 lhs = sympy.N(dupd[v].subs(d), 45)
                 st = dict(pt)
                 st.update({x: u1[w] for w, x in zip(svars, xs)})
+                if tsym in st:
+                    st[tsym] = pt[tsym] + h1
                 rhs = sympy.N(_exact(ps["rhs"][v]).subs(st), 45)
                 if abs(lhs - rhs) > sympy.Float("1e-7") * (1 + abs(rhs)):
                     out["problems"].append({"law": "d/dh update = rhs(updated state)", "variable": v, "got": str(lhs), "want": str(rhs), "h": str(h1)})
             u12 = U(h1 + h2, st0)
-            u2 = U(h2, {x: u1[w] for w, x in zip(svars, xs)})
+            u2 = U(h2, {x: u1[w] for w, x in zip(svars, xs)}, t0=(pt[tsym] + h1) if tsym in pt else None)
             for v in svars:
                 if abs(u12[v] - u2[v]) > sympy.Float("1e-7") * (1 + abs(u12[v])):
                     out["problems"].append({"law": "step(h1) then step(h2) = step(h1+h2)", "variable": v, "got": str(u2[v]), "want": str(u12[v])})
@@ -713,7 +727,8 @@ def case_dict(case):
                              "state_variables": sv, "update_keys": sorted(s.get("update_expressions", {})), "iv_keys": sorted(s.get("initial_values", {}))})
             continue
         props = s.get("propagators", {})
-        allowed = set(allvars) | {hs, "t"} | set(props) | input_syms
+        tname = opts.get("input_time_symbol", "t")
+        allowed = set(allvars) | {hs, tname} | set(props) | input_syms
         used_params = set()
         for group in ("update_expressions", "propagators", "initial_values"):
             for k, e in s.get(group, {}).items():
@@ -730,8 +745,10 @@ def case_dict(case):
                 pu = {x for x in fs if x.startswith("__P__")}
                 if pu - set(props):
                     problems.append({"what": "propagator used but not defined", "group": group, "key": k, "symbols": sorted(pu - set(props))})
-                if group == "propagators" and (fs & (set(allvars) | {"t"})):
-                    problems.append({"what": "propagator depends on state or time other than through the step symbol", "key": k, "symbols": sorted(fs & (set(allvars) | {"t"}))})
+                if group == "propagators" and (fs & (set(allvars) | {tname})):
+                    problems.append({"what": "propagator depends on state or time other than through the step symbol", "key": k, "symbols": sorted(fs & (set(allvars) | {tname}))})
+                if group == "update_expressions" and kind == "analytical" and tname in fs:
+                    problems.append({"what": "analytic update expression names the time variable", "key": k, "symbols": [tname]})
                 if hs != "__h" and "__h" in fs:
                     problems.append({"what": "default time-step symbol used although another one is configured", "group": group, "key": k})
         if marker != "__d":
